@@ -15,7 +15,7 @@ def run(ck):
     prog = ck.prog
     ck.rule("C17-R1", "H writer/reader table agreement",
             "every attribute name Cookie::write emits is matched by Cookie::fromRaw and bound to the same Cookie member "
-            "(Path, Domain, Max-Age, Expires, Secure, HttpOnly)", 6)
+            "(Path, Domain, Max-Age, Expires, Secure, HttpOnly), and is written whenever the member is present", 12)
     ck.rule("C17-R2", "G bounded-buffer taint",
             "cookie.cc passes pointers into the raw header text only to length-bounded sinks", 1)
     ck.rule("C17-R3", "I keyed keep-first insertion",
@@ -23,34 +23,46 @@ def run(ck):
             "of a Cookie header (so a rolled-back step re-parses idempotently)", 2)
 
     w = lib.single(prog, H + "Cookie::write")
-    # writer: branch on a member -> literal written in that arm
-    wmap = {}
-    for b in w.blocks.values():
-        t = b.term
-        if not t or t.get("k") != "if":
-            continue
-        mem = None
-        for r in (t.get("refs") or []):
-            if r.startswith("f:" + H + "Cookie::") and r.rsplit("::", 1)[1] in MEMBERS:
-                mem = r.rsplit("::", 1)[1]
-        if not mem or b.succs[0] is None:
-            continue
-        lits = []
-        cur = w.blocks[b.succs[0]]
-        for e in cur.elems:
-            if e["k"] == "call" and e.get("op") == "<<":
-                for a in e.get("args", []):
-                    c = a.get("const")
-                    if isinstance(c, str) and c.startswith("s:"):
-                        lits.append(c[2:])
+    # writer: every insertion of a literal that names an attribute ("; Secure", "Path=", ...) and the tests that decide whether it is
+    # reached.  An attribute is written exactly when it is present: the deciding tests are presence tests of one member
+    # (`m.has_value()`, `if (m)`, a bool member) and nothing else -- a test on the attribute's *value* drops some values on the way out
+    wmap, wguard = {}, {}
+    for e in w.calls(lambda e: e.get("op") == "<<"):
+        lits = [a.get("const")[2:] for a in e.get("args", []) if isinstance(a.get("const"), str) and a["const"].startswith("s:")]
         name = None
         for l in lits:
             n = l.strip("; =").strip()
-            if n:
+            if n and re.match(r"^[A-Za-z][A-Za-z-]*$", n):
                 name = n
-        if name:
-            wmap[mem] = name
-    ck.require(len(wmap) >= 6, "attribute writers found in Cookie::write: %s" % wmap)
+        if not name:
+            continue
+        guards = []
+        for b in w.blocks.values():
+            t = b.term
+            if not t or t.get("k") != "if" or len(b.succs) != 2:
+                continue
+            for k_ in (0, 1):
+                if b.succs[k_] is not None and cfg.edge_dominates(w, b.id, k_, e):
+                    guards.append((b, k_))
+        mems = set()
+        odd = []
+        for b, k_ in guards:
+            t = b.term
+            ms = {r.rsplit("::", 1)[1] for r in (t.get("refs") or []) if r.startswith("f:" + H + "Cookie::") and r.rsplit("::", 1)[1] in MEMBERS}
+            core_t = re.sub(r"\s+", "", (t.get("core") or {}).get("t") or "")
+            presence = len(ms) == 1 and not t.get("cmp") and (k_ == 0) != bool(t.get("neg")) and \
+                re.match(r"^(this->)?%s(\.has_value\(\))?$" % re.escape(next(iter(ms))), core_t) is not None
+            if presence:
+                mems |= ms
+            else:
+                odd.append(t.get("cond") or "")
+        if len(mems) == 1:
+            wmap[next(iter(mems))] = name
+            wguard[name] = odd
+        elif name not in wmap.values():
+            wguard.setdefault(name, odd or ["<no presence test of an attribute member>"])
+            wmap.setdefault("?" + name, name)
+    ck.require(len([m for m in wmap if not m.startswith("?")]) >= 5, "attribute writers found in Cookie::write: %s" % wmap)
     r = lib.single(prog, H + "Cookie::fromRaw")
     rmap = {}
     for e in r.calls(lambda e: strip_tmpl(e.get("callee") or "").endswith("::match_attribute")):
@@ -75,8 +87,14 @@ def run(ck):
     ck.require(len(rmap) >= 6, "match_attribute calls found in Cookie::fromRaw: %s" % rmap)
     for mem, name in sorted(wmap.items()):
         got = rmap.get(name)
-        ck.ob("C17-R1", "attribute:%s" % name, got == mem, w.loc, w,
-              "written for Cookie::%s, read back into Cookie::%s" % (mem, got) if got else "written for Cookie::%s but no matcher reads %r" % (mem, name))
+        if not mem.startswith("?"):
+            ck.ob("C17-R1", "attribute:%s" % name, got == mem, w.loc, w,
+                  "written for Cookie::%s, read back into Cookie::%s" % (mem, got) if got else "written for Cookie::%s but no matcher reads %r" % (mem, name))
+        odd = wguard.get(name) or []
+        ck.ob("C17-R1", "attribute:%s/written-whenever-present" % name, not odd and not mem.startswith("?"), w.loc, w,
+              "decided by the presence of Cookie::%s alone" % mem if not odd and not mem.startswith("?") else
+              "whether %s is written also depends on `%s`: a cookie whose attribute is present but fails that test is written without it "
+              "and does not parse back equal" % (name, "`, `".join(odd)[:120]))
 
     # Expires is written in the four-digit-year form (FullDate::write's default, RFC 1123): the two-digit-year forms are parsed
     # into 1969..2068 only
@@ -151,3 +169,9 @@ def run(ck):
                   "the handler throws on every path" if not quiet else
                   "the handler for %s completes normally: the malformed value that raised it is accepted as if the attribute were absent" % hb.label.get("type"))
     ck.note("C17-R1: %d catch handler(s) in cookie.cc" % nh)
+
+    # ---------------- facts shared with C03 ----------------
+    ck.borrow("C03", ["C03-R8"], "C17-R4",
+              "malformed cookie text ends in an error, never in a parser that spins: every iteration of the attribute loop of Cookie::fromRaw "
+              "and of the pair loop of CookieJar::addFromRaw definitely consumes input",
+              key_pred=lambda k: "Cookie" in k, min_instances=2)
